@@ -76,6 +76,9 @@ pub enum E2Cmd {
     Garbage { to: usize, hex: String },
     /// a valid SYN from a synthetic peer; the server must answer it
     Probe { to: usize },
+    /// a valid SYN of another cluster, padded (through its cluster id) to exactly `len` bytes: the
+    /// server must answer it (with BadCluster) whatever its size up to the 65,507-byte limit
+    BigProbe { to: usize, len: usize },
     /// the next send of server i fails / stalls for ms
     FailNextSends { i: usize, count: u32 },
     StallNextSend { i: usize, ms: u64 },
@@ -747,6 +750,33 @@ impl Run {
                 self.net.lock().unwrap().stats.inc("probes_sent");
                 if after == before && !excused {
                     return Err(viol(self.step, "C19.unanswered", format!("server {to} did not answer a valid SYN within 2 ms of simulated time")));
+                }
+                Ok(())
+            }
+            E2Cmd::BigProbe { to, len } => {
+                let Some(s) = self.srv.get(*to) else { return Ok(()) };
+                if s.ended || s.handle.is_none() {
+                    return Ok(());
+                }
+                let excused = self.excused_until(*to) > self.now();
+                let target = (*len).clamp(16, codec::MAX_DATAGRAM);
+                let base = codec::encode(&Msg::Syn { digest: vec![], cluster: String::new() }, BlockPlan::Auto { size: 16_384 }).len();
+                let bytes = codec::encode(&Msg::Syn { digest: vec![], cluster: "z".repeat(target - base) }, BlockPlan::Auto { size: 16_384 });
+                if bytes.len() != target {
+                    return Ok(());
+                }
+                let before = self.net.lock().unwrap().probe_replies;
+                let tx = self.net.lock().unwrap().inboxes.get(&addr(*to)).cloned();
+                if let Some(tx) = tx {
+                    let _ = tx.send(Inbox::Datagram(probe_addr(), bytes));
+                }
+                let t = self.now() + 2;
+                advance_to(&self.net, t).await;
+                let after = self.net.lock().unwrap().probe_replies;
+                self.net.lock().unwrap().stats.inc("probe_maximal_datagram_received");
+                self.nontrivial = true;
+                if after == before && !excused {
+                    return Err(viol(self.step, "C19.unanswered", format!("server {to} did not answer a valid SYN of {target} bytes within 2 ms of simulated time")));
                 }
                 Ok(())
             }
@@ -1423,6 +1453,8 @@ fn gen_cmds(seed: u64) -> (E2Cfg, Vec<E2Cmd>) {
             } else {
                 E2Cmd::FloodRound { i, n: *r2.pick(&[3u32, 200, 400]) }
             }
+        } else if r2.chance(0.04) {
+            E2Cmd::BigProbe { to: r2.usize_below(n), len: *r2.pick(&[65_507usize, 65_507, 65_506, 30_000]) }
         } else if raw_udp && r2.chance(0.08) {
             E2Cmd::TransientRecv { i: r2.usize_below(n), kind: r2.below(3) as u8 }
         } else {
